@@ -28,6 +28,7 @@ type verifIdPAnswer struct {
 	NetErr  bool
 	Status  int
 	BadJSON bool
+	Mistyped bool
 }
 
 type verifTokenBody struct {
@@ -63,6 +64,7 @@ type verifIdP struct {
 	ClaimsBadJSON   bool
 	IDTokenKind     int
 	UserinfoBody    verifUserinfo
+	mistyped        bool
 }
 
 func verifStatus(label string) int {
@@ -86,6 +88,9 @@ func (i *verifIdP) answer(name string, a *verifIdPAnswer, body func(bad bool) []
 	}
 	// any status may come with a well-formed success-shaped body (a peer is not obliged to be consistent)
 	a.BadJSON = zz.NondetBool(name + ".badjson")
+	// a bad body is cut short, or is well-formed JSON with one member of the wrong type
+	a.Mistyped = a.BadJSON && zz.NondetBool(name+".badjson.mistyped")
+	i.mistyped = a.Mistyped
 	return zz.Response(a.Status, body(a.BadJSON)), nil
 }
 
@@ -101,11 +106,17 @@ func (i *verifIdP) RoundTrip(req *http.Request) (*http.Response, error) {
 		return i.answer("token", &i.Token, func(bad bool) []byte {
 			zz.Havoc("token.body", &i.TokenBody)
 			i.TokenBody.IDToken = i.idToken()
+			if i.mistyped {
+				return zz.JSONBodyMistyped(&i.TokenBody)
+			}
 			return zz.JSONBody(&i.TokenBody, bad)
 		})
 	case "/userinfo":
 		return i.answer("userinfo", &i.Userinfo, func(bad bool) []byte {
 			zz.Havoc("userinfo.body", &i.UserinfoBody)
+			if i.mistyped {
+				return zz.JSONBodyMistyped(&i.UserinfoBody)
+			}
 			return zz.JSONBody(&i.UserinfoBody, bad)
 		})
 	}
